@@ -72,7 +72,16 @@ class SqliteImpl(SqlImpl):
         # integer out of a float-typed `coalesce(float_col, int_col)`.
         if (
             fn.op
-            in (ops.horizontal_min, ops.horizontal_max, ops.mean, ops.min, ops.max, ops.coalesce, ops.fill_null)
+            in (
+                ops.horizontal_min,
+                ops.horizontal_max,
+                ops.mean,
+                ops.min,
+                ops.max,
+                ops.coalesce,
+                ops.fill_null,
+                ops.clip,
+            )
             and fn.dtype().is_float()
         ):
             return sqa.cast(val, sqa.Double)
